@@ -91,7 +91,7 @@ FIELDS = ('duration', 'text_time', 'media_time', 'started', 'ended')
 STARTS = ['2021-03-04T10:00:00', '2021-03-04T10:07:30', '2020-02-29T23:59:59']
 ENDS = ['2021-03-04T10:05:00', '2021-03-04T11:00:00', '2020-03-01T00:00:10']
 ZONES = ['', '', 'Z', '+00:00', '+01:00', '-05:30', '+13:45']
-DURS = ['0', '3', '2.5', '12.25', '0.125', '60', '31']
+DURS = ['0', '3', '2.5', '12.25', '0.125', '60', '31', ' 3 ', '+2', '1e1', '25e-1', '0.5E1', '1.50', '007', '.5', '5.']
 
 
 def story_md_variants():
